@@ -49,9 +49,10 @@ type act struct {
 }
 
 type scene struct {
-	ms  *mesh.Mesh
-	v   *world.Node
-	rng *rand.Rand
+	ms      *mesh.Mesh
+	v       *world.Node
+	rng     *rand.Rand
+	forceMT frame.MessageType // != 0: every ping is built with this message type
 }
 
 // model number n <-> mesh node n+1 (victim 0 = node 1, peers 1..3, router 4 = node 5, unknown 5 = node 6)
@@ -240,6 +241,9 @@ func (s *scene) ping(from, claim *world.Node, mt frame.MessageType, pingType str
 	}
 	data := append([]byte{1, byte(len(hd))}, hd...)
 	data = append(data, bd...)
+	if s.forceMT != 0 {
+		mt = s.forceMT
+	}
 	f, err := from.Builder.NewFrameV1(claim.ID.IP, s.v.ID.IP, mt, nil, data, nil)
 	if err != nil {
 		panic(err)
@@ -506,6 +510,16 @@ func run(c *vf.Ctx) {
 				}
 			}
 			data = g1
+		case "forged-at-newest-stamp":
+			// X's newest signed frame is on record at the victim; Z makes a hop ping claiming X with exactly that stamp
+			g1 := s.genuinePing("err-generic", x, x)
+			pre = func() { _, _ = s.ms.W.DeliverRaw(from, s.v, g1) }
+			z := s.node(a.Src%3 + 1)
+			s.forceMT = frame.RouterHopPing
+			data = append([]byte(nil), s.genuinePing(a.Type, z, x)...)
+			s.forceMT = 0
+			copy(data[8:16], g1[8:16])
+			note = "hop ping made by router " + fmt.Sprint(a.Src%3+1) + " with the time stamp of X's newest frame"
 		case "first-badkey":
 			// a ping of the unknown router whose header carries the key of ANOTHER key pair
 			y := s.node(4)
